@@ -130,6 +130,7 @@ pub fn main(args: &[String]) -> i32 {
 		let mut done = 0u64;
 		let mut max_gens = 0usize;
 		let mut grew = false;
+		let mut batched = 0u64;
 		let res = std::panic::catch_unwind(std::panic::AssertUnwindSafe(|| {
 			let mut db = Some(Db::open_or_create(&o).unwrap());
 			// live keys: current value
@@ -140,34 +141,50 @@ pub fn main(args: &[String]) -> i32 {
 				let d = db.as_ref().unwrap();
 				// fill phase: the page has to overflow before anything interesting happens
 				let kind = if opno < fill && (deep || rng.chance(4, 5)) { 0 } else { rng.below(20) };
-				let mut set_key: Option<usize> = None;
+				// the changes of this transaction: (key, set?) in the order they are given; a third of the set / remove
+				// transactions carry 2-5 changes of different keys
+				let mut batch: Vec<(usize, bool)> = Vec::new();
 				match kind {
-					0..=11 => {
-						// set: mostly new keys (the page has to overflow), otherwise an existing key with a value of the
-						// same or of another size tier
-						let k = if next_new < nkeys && (opno < fill || rng.chance(1, 2)) {
-							next_new += 1;
-							next_new - 1
-						} else {
-							rng.below(nkeys as u64) as usize
-						};
-						version += 1;
-						let len = *rng.pick(&[10usize, 10, 11, 40, 200]);
-						let mut v = vec![(version & 0xff) as u8; len];
-						v[..8].copy_from_slice(&((k as u64) << 32 | version).to_le_bytes());
-						d.commit_changes(vec![(0u8, Operation::Set(keys[k].clone(), v.clone()))]).unwrap();
-						live.insert(k, v);
-						set_key = Some(k);
-					},
-					12..=14 => {
-						if live.is_empty() {
+					0..=14 => {
+						let n = if rng.chance(1, 3) { rng.range(2, 5) as usize } else { 1 };
+						let mut tx = Vec::new();
+						for j in 0..n {
+							let want_set = if j == 0 { kind <= 11 } else { rng.chance(3, 4) };
+							if want_set {
+								let k = if next_new < nkeys && (opno < fill || rng.chance(1, 2)) {
+									next_new += 1;
+									next_new - 1
+								} else {
+									rng.below(nkeys as u64) as usize
+								};
+								if batch.iter().any(|b| b.0 == k) {
+									continue
+								}
+								version += 1;
+								let len = *rng.pick(&[10usize, 10, 11, 40, 200]);
+								let mut v = vec![(version & 0xff) as u8; len];
+								v[..8].copy_from_slice(&((k as u64) << 32 | version).to_le_bytes());
+								tx.push((0u8, Operation::Set(keys[k].clone(), v.clone())));
+								live.insert(k, v);
+								batch.push((k, true));
+							} else {
+								let ks: Vec<usize> = live.keys().cloned().filter(|k| !batch.iter().any(|b| b.0 == *k)).collect();
+								if ks.is_empty() {
+									continue
+								}
+								let k = *rng.pick(&ks);
+								tx.push((0u8, Operation::Dereference(keys[k].clone())));
+								live.remove(&k);
+								batch.push((k, false));
+							}
+						}
+						if batch.is_empty() {
 							continue
 						}
-						let ks: Vec<usize> = live.keys().cloned().collect();
-						let k = *rng.pick(&ks);
-						d.commit_changes(vec![(0u8, Operation::Dereference(keys[k].clone()))]).unwrap();
-						live.remove(&k);
-						case.extend_from_slice(&[2, k as u64, known_of(&keys[k])]);
+						if batch.len() > 1 {
+							batched += 1;
+						}
+						d.commit_changes(tx).unwrap();
 					},
 					15..=18 => {
 						d.process_reindex().unwrap();
@@ -193,28 +210,39 @@ pub fn main(args: &[String]) -> i32 {
 				if gens.len() > 1 {
 					grew = true;
 				}
-				if let Some(k) = set_key {
-					// where the value is now: the entry with the key's bits whose address holds this value
-					let kn = known_of(&keys[k]);
+				{
 					let mut raw = Raw::new(&dir);
-					let mut addr = None;
-					for (_, pages) in &gens {
-						for es in pages.values() {
-							for (_, known, a) in es {
-								if *known == kn && raw.value(0, *a, false, true).as_ref() == live.get(&k) {
-									addr = Some(*a);
+					let nb = batch.len();
+					for (n, (k, is_set)) in batch.iter().enumerate() {
+						let silent = if n + 1 == nb { 0 } else { 10 };
+						let kn = known_of(&keys[*k]);
+						if !*is_set {
+							case.extend_from_slice(&[2 + silent, *k as u64, kn]);
+							continue
+						}
+						// where the value is now: the entry with the key's bits whose address holds this value
+						let mut addr = None;
+						for (_, pages) in &gens {
+							for es in pages.values() {
+								for (_, known, a) in es {
+									if *known == kn && raw.value(0, *a, false, true).as_ref() == live.get(k) {
+										addr = Some(*a);
+									}
 								}
 							}
 						}
+						match addr {
+							Some(a) => case.extend_from_slice(&[1 + silent, *k as u64, kn, a]),
+							None => {
+								if verdict.is_ok() {
+									verdict = Err(format!("stale-or-lost no index entry leads to the value just written for key {k}"));
+								}
+								case.extend_from_slice(&[1 + silent, *k as u64, kn, 0]);
+							},
+						}
 					}
-					match addr {
-						Some(a) => case.extend_from_slice(&[1, k as u64, kn, a]),
-						None => {
-							if verdict.is_ok() {
-								verdict = Err(format!("stale-or-lost no index entry leads to the value just written for key {k}"));
-							}
-							case.extend_from_slice(&[1, k as u64, kn, 0]);
-						},
+					if nb > 1 {
+						done += nb as u64 - 1;
 					}
 				}
 				done += 1;
@@ -251,6 +279,7 @@ pub fn main(args: &[String]) -> i32 {
 			Err(e) => oracle.push_str(&format!("FAIL {e}\n")),
 		}
 		*dist.entry(format!("slot-histories-max-generations-{max_gens}")).or_insert(0) += 1;
+		*dist.entry("transactions-with-several-changes".into()).or_insert(0) += batched;
 		if grew {
 			distinct += 1;
 		}
